@@ -135,13 +135,17 @@ def transforms(ck, agg, b):
     b.model.opaque[P.method(rf, "send").qualname] = rec_send
     n = 0
     try:
-        for mode in ("bytes", "list", "empty"):
+        for mode in ("bytes", "list", "list of bytearrays", "tuple of bytearrays", "empty"):
             n += 1
             st, pl = scenario(b, False, False)
             if mode == "bytes":
                 arg = Bytes([(("param", "buf"), Const(4))], "bytes", origin=("param", "buf"))
             elif mode == "list":
                 arg = st.alloc("list", items=[Bytes([(("param", "c0"), Const(3))], "bytes"), Bytes([(("param", "c1"), Const(4))], "bytes")])
+            elif mode.endswith("bytearrays"):
+                # what chunk() hands out: mutable objects that the caller keeps and advertises again (docs) - they must come back unchanged
+                chunks = [Bytes([(("param", "c0"), Const(3))], "bytearray", origin=("param", "c0")), Bytes([(("param", "c1"), Const(4))], "bytearray", origin=("param", "c1"))]
+                arg = st.alloc("list", items=chunks) if mode.startswith("list") else Seq(chunks, "tuple")
             else:
                 arg = Bytes([], "bytes")
             outs = b.run(f, [arg], st)
@@ -149,6 +153,9 @@ def transforms(ck, agg, b):
                 if out.kind != "return":
                     agg.add("R18.3", f, "advertise() of a small payload does not raise", False, "%s raises %s" % (mode, out.value.exc))
                     continue
+                mut = sorted({str(e.data) for e in out.trace if e.kind == "mutate" and isinstance(e.data, tuple) and e.data[0] == "param"})
+                agg.add("R18.2", f, "advertise() leaves the caller's chunks as they are (the same chunks are advertised again and again)", not mut,
+                        "%s: advertise() modifies the caller's object(s) %s in place - the next advertise() of the same chunks sends them twice over" % (mode, ", ".join(mut)))
                 sd = [e for e in out.trace if e.kind == "radio-send"]
                 agg.add("R18.3", f, "exactly one radio payload is sent per advertise()", len(sd) == 1, "%s: %d sends" % (mode, len(sd)))
                 if not sd:
@@ -163,7 +170,7 @@ def transforms(ck, agg, b):
                     if mode == "bytes":
                         okp = any(t == ("param", "buf") for t in tags) and any(t[0] == "items" and len(t[2]) == 2 and const_of(norm(t[2][0])) == 5 and const_of(norm(t[2][1])) == TB.AD_MANUFACTURER for t in tags)
                         agg.add("R18.2", f, "a raw buffer is wrapped as one AD structure [len+1, 0xFF] + the caller's bytes", okp, "parts %r" % ([t[:2] for t in tags],))
-                    elif mode == "list":
+                    elif mode != "empty":
                         idx = [i for i, t in enumerate(tags) if t in (("param", "c0"), ("param", "c1"))]
                         agg.add("R18.2", f, "caller's chunks appear verbatim, in order, adjacent", len(idx) == 2 and idx[1] == idx[0] + 1 and tags[idx[0]] == ("param", "c0"), "parts %r" % ([t[:2] for t in tags],))
     finally:
